@@ -263,6 +263,18 @@ ShowL(l) == (IF l.num >= 0 THEN Dec(l.num) \o <<32>> ELSE <<>>) \o ShowToks(l.to
 
 \* ---- meaning: what the parser sees (blanks, the optional LET and the choice of remark marker
 \* do not matter)
-Meaning(l) == [num |-> l.num,
-               toks |-> SelectSeq(l.toks, LAMBDA t : t.k # "ws" /\ t # Tok("word", W_LET))]
+\* Everything after a remark marker is remark text, however the scanner happened to cut it into
+\* tokens ("REMA" scans as REM, A; its listing "REM A" as REM and the text " A"): it means its
+\* characters, blanks at either end apart.
+IsRemMark(t) == t = Tok("word", W_REM) \/ t = Minutia(39)
+RemIdx(ts) == LET I == {i \in 1..Len(ts) : IsRemMark(ts[i])} IN
+              IF I = {} THEN 0 ELSE CHOOSE i \in I : \A j \in I : i <= j
+RECURSIVE TrimBoth(_)
+TrimBoth(s) == IF s # <<>> /\ IsWsC(s[1]) THEN TrimBoth(Tail(s))
+               ELSE IF s # <<>> /\ IsWsC(s[Len(s)]) THEN TrimBoth(SubSeq(s, 1, Len(s) - 1)) ELSE s
+Meaning(l) == LET r == RemIdx(l.toks)
+                  code == IF r = 0 THEN l.toks ELSE SubSeq(l.toks, 1, r) IN
+              [num |-> l.num,
+               toks |-> SelectSeq(code, LAMBDA t : t.k # "ws" /\ t # Tok("word", W_LET)),
+               rem |-> IF r = 0 THEN <<>> ELSE TrimBoth(ShowToks(SubSeq(l.toks, r + 1, Len(l.toks)), 1))]
 =============================================================================
